@@ -671,8 +671,8 @@ def _cfg_strategy():
 def random_cases(draw, tier):
     net = draw(
         st.one_of(
-            crn_gen.net_strategy(max_species=6, max_rxn=5, max_coef=3, rules=["r", "q"]),
-            crn_gen.net_strategy(max_species=4, max_rxn=5, max_coef=2, rules=["r"], max_terms=2),
+            crn_gen.net_strategy(max_species=6, max_rxn=5, max_coef=3, rules=["r", "q"], min_rxn=2),
+            crn_gen.net_strategy(max_species=4, max_rxn=5, max_coef=2, rules=["r"], max_terms=2, min_rxn=2),
             crn_gen.net_strategy(max_species=3, max_rxn=4, max_coef=1, rules=["r"], max_terms=2),
         )
     )
